@@ -25,7 +25,7 @@ THOROUGH_EXTRA_SEEDS = 2
 ALSO = {"quick": [], "thorough": ["harness.props.hv20"]}
 REQUIRED = ["BoundsArg", "GeometryArg", "GeoJson", "Cli", "is-bounds", "not-bounds", "underscore", "spaces", "five-numbers",
             "geojson-string", "geojson-file.geojson", "geojson-file.json", "geojson-valid", "geojson-invalid",
-            "cmd-clip", "cmd-extract-points", "cmd-export-geometry", "flag-first-row-misses", "flag-last-row-misses", "flag-ext-fragment", "request-good", "request-bad", "library-fails",
+            "cmd-clip", "cmd-extract-points", "cmd-export-geometry", "flag-first-row-misses", "flag-last-row-misses", "flag-ext-fragment", "flag-work-dir-reused", "request-good", "request-bad", "library-fails",
             "flag-policy-error", "flag-policy-drop", "flag-policy-fill", "flag-format-geojson", "flag-format-shapefile",
             "flag-format-wkt", "flag-format-wkb", "flag-format-auto",
             "conv-cf1d", "conv-cf2d", "conv-shoc_simple", "conv-shoc_standard", "conv-ugrid"]
@@ -109,6 +109,10 @@ def cases(tier: str, seed: int) -> list[dict]:
         xs = [p[0] for p in box["parts"][0]["pts"]]; ys = [p[1] for p in box["parts"][0]["pts"]]
         cli.append({"cmd": "clip", "geomkind": "bounds", "bounds": [min(xs), min(ys), max(xs), max(ys)], "flags": ["geom-bounds"], "request": "good"})
         cli.append({"cmd": "clip", "geomkind": "geojson", "geom": next(g for g in geoms if g["label"] == "multi")["parts"], "flags": ["geom-geojson"], "request": "good"})
+        inner = next(g for g in geoms if g["label"] == "inside-cell")
+        ixs = [p[0] for p in inner["parts"][0]["pts"]]; iys = [p[1] for p in inner["parts"][0]["pts"]]
+        cli.append({"cmd": "clip", "geomkind": "bounds", "bounds": [min(xs), min(ys), max(xs), max(ys)], "flags": ["geom-bounds", "work-dir-reused"],
+                    "prior_bounds": [min(ixs) - 30, min(iys) - 30, max(ixs) + 30, max(iys) + 30], "request": "good"})
         cli.append({"cmd": "clip", "geomkind": "text", "text": "1,2,3,4,5", "flags": ["geom-bad"], "request": "bad"})
         for policy in ("error", "drop", "fill"):
             ps = [rng.choice(pts) for _ in range(4)] + [[100000, 100000]]      # the last point misses
@@ -299,7 +303,14 @@ def execute(case: dict) -> dict:
                 arg = json.dumps(geojson_degrees(e["geom"]))
             else:
                 arg = e["text"]
-            code, msg = run_cli(["clip", str(inp), arg, str(out)], str(work))
+            extra = []
+            if e.get("prior_bounds"):
+                # an earlier clip of another region was run with the same --work_dir (as when cutting a series of files)
+                shared = work / "shared-work"; shared.mkdir()
+                prior = ",".join(repr(v * SCALE) for v in e["prior_bounds"])
+                run_cli(["clip", str(inp), prior, str(work / "earlier.nc"), "--work_dir", str(shared)], str(work))
+                extra = ["--work_dir", str(shared)]
+            code, msg = run_cli(["clip", str(inp), arg, str(out), *extra], str(work))
             e["obs"] = {"exit": code, "message": msg, "out": proj_nc(out) if out.exists() else absent}
 
             def lib():
@@ -351,7 +362,7 @@ def execute(case: dict) -> dict:
                  "wkb": geomops.write_wkb}[fmt](d, str(p))
                 return read_features(fmt, str(p))
             e["lib"] = outcome(lib) if e["request"] == "good" else {"err": "n/a"}
-        for k in ("geom", "bounds", "text"):
+        for k in ("geom", "bounds", "text", "prior_bounds"):
             e.pop(k, None)
         e.setdefault("points", [])
         rec["events"].append(e)
